@@ -53,13 +53,15 @@ def oracle(case, out):
         want = next((i for i, c in cps(h) if i >= st and (c in members) == (op == "sfo")), None)
         if idx(o) != want:
             return "string find_first_%sof(%s,set %s,%d) = %s, expected %s" % ("" if op == "sfo" else "not_", t[2], t[3], st, o, want)
-    elif op == "eq":
-        if (o == "1") != (b(t[2]) == b(t[3])):
-            return "equal(%s,%s) = %s" % (t[2], t[3], o)
-    elif op == "eqc":
+    elif op in ("eq", "eqc"):
         low = lambda x: bytes(c + 32 if 65 <= c <= 90 else c for c in x)
-        if (o == "1") != (low(b(t[2])) == low(b(t[3]))):
-            return "equal_case(%s,%s) = %s" % (t[2], t[3], o)
+        want = (b(t[2]) == b(t[3])) if op == "eq" else (low(b(t[2])) == low(b(t[3])))
+        name = "equal" if op == "eq" else "equal_case"
+        for k, part in enumerate(o.split()):
+            # "<r>" then "str-variant:<r>" / "aliased-variant:<r>" (both values as slices starting at one address)
+            how, _, v = part.rpartition(":")
+            if (v == "1") != want:
+                return "%s(%s,%s)%s = %s" % (name, t[2], t[3], " [%s]" % how if how else "", v)
     return None
 
 
